@@ -36,6 +36,12 @@ CATALOGUE = [
     '(declare-const a Real)\n(assert (> a 1.5))\n(assert (= a (/ 3 4)))\n(assert (< 10.25 a))\n',
     '(set-logic QF_NIRA)\n(declare-const i Int)\n(assert (> (* i i) 2))\n',
     '(declare-const x Int)\n(assert (= x x x))\n(assert (= x 0))\n(assert (= 0 x))\n',
+    # a variable defined by an equality with a compound term: elimination
+    # duplicates the term, replacement by a variable of the same sort can
+    # bring the variable back
+    '(declare-const w Int)\n(declare-const a Int)\n(assert (= w (+ a 1)))\n',
+    '(declare-const p Bool)\n(declare-const q Bool)\n(declare-const r Bool)\n(assert (= p (and q r)))\n',
+    '(declare-const v (_ BitVec 8))\n(declare-const u (_ BitVec 8))\n(assert (= (bvadd u #x01) v))\n(assert (bvult v u))\n',
     # two variables, an equality and a second use: variable-for-variable
     # rewrites in both directions (also with --replace-by-variable-mode dec)
     '(declare-const a Int)\n(declare-const b Int)\n(assert (= a b))\n(assert (> a 0))\n',
@@ -97,7 +103,10 @@ class Explorer:
         return '\x00'.join(toks)
 
     def step_budget(self, n, nprops):
-        return (1 + nprops) * (10_000 + 200 * n + 5 * n * n)
+        # sort inference is quadratic in the depth of a chain-shaped term
+        # (about 3.3 n^2 calls, i.e. ~7 n^2 lines, for nested ite): the
+        # budget must leave that alone and still stop exponential cost
+        return (1 + nprops) * (10_000 + 400 * n + 50 * n * n)
 
     def node_budget(self, n, nprops):
         return (1 + nprops) * (100 + 20 * n)
@@ -291,7 +300,14 @@ def exhaustive_depth2(ex, ns, res, text, origin, cap_states=40):
     res.add_set('distinct_states', common.digest(k0))
     edges = {}  # (key of t, key of t') -> (mutator, node) among depth-1 states
     back = set()
-    for kt, (mname, i, t) in list(seen.items())[:cap_states]:
+    # a 2-cycle through the seed needs a step that does not shrink the
+    # input: expand the largest successors first (the cap then cuts off
+    # shrinking steps only)
+    order = sorted(seen.items(),
+                   key=lambda kv: -ns.nodes.count_nodes(kv[1][2]))
+    if len(order) > cap_states:
+        res.count('depth1_states_not_expanded', len(order) - cap_states)
+    for kt, (mname, i, t) in order[:cap_states]:
         res.count('states_expanded')
         res.add_set('distinct_states', common.digest(kt))
         for m2, j, u in ex.successors(t):
